@@ -414,11 +414,59 @@ pub fn styles_agree<I: Iterator, T: PartialEq + Clone>(mk: &dyn Fn() -> I, sig: 
         }
         ok &= rest == base[k..].to_vec();
     }
+    ok &= mk().nth(n).is_none() && mk().nth(n + 1).is_none() && mk().skip(n).next().is_none();
     if n >= 2 {
         ok &= mk().step_by(2).map(|x| sig(x)).collect::<Vec<T>>() == base.iter().step_by(2).cloned().collect::<Vec<T>>();
-        ok &= mk().nth(n).is_none();
         let mut it = mk();
         ok &= it.nth(n - 1).map(|x| sig(x)) == Some(base[n - 1].clone()) && it.next().is_none();
     }
+    if n >= 3 {
+        ok &= mk().step_by(3).map(|x| sig(x)).collect::<Vec<T>>() == base.iter().step_by(3).cloned().collect::<Vec<T>>();
+        // nth twice in a row
+        let mut it = mk();
+        ok &= it.nth(1).map(|x| sig(x)) == Some(base[1].clone());
+        ok &= it.nth(0).map(|x| sig(x)) == Some(base[2].clone());
+    }
+    ok
+}
+
+/// The backward ways of consuming a double-ended iterator (`rev`, `next_back`, `nth_back`,
+/// `rfold`, `rfind`, both ends alternately until they meet) against its forward sequence.
+pub fn styles_agree_back<I: DoubleEndedIterator, T: PartialEq + Clone>(mk: &dyn Fn() -> I, sig: &dyn Fn(I::Item) -> T) -> bool {
+    let mut base: Vec<T> = vec![];
+    let mut it = mk();
+    while let Some(x) = it.next() {
+        base.push(sig(x));
+    }
+    let n = base.len();
+    let rev: Vec<T> = base.iter().rev().cloned().collect();
+    let mut ok = mk().rev().map(|x| sig(x)).collect::<Vec<T>>() == rev;
+    ok &= mk().rfold(0usize, |a, _| a + 1) == n;
+    ok &= mk().next_back().map(|x| sig(x)) == rev.first().cloned();
+    ok &= mk().nth_back(n).is_none();
+    for k in 1..=n.min(3) {
+        let mut it = mk();
+        ok &= it.nth_back(k - 1).map(|x| sig(x)) == Some(rev[k - 1].clone());
+        let rest: Vec<T> = it.map(|x| sig(x)).collect();
+        ok &= rest == base[..n - k].to_vec();
+        ok &= mk().rev().skip(k).map(|x| sig(x)).collect::<Vec<T>>() == rev[k..].to_vec();
+    }
+    // alternate ends until they meet
+    let mut it = mk();
+    let (mut front, mut back) = (vec![], vec![]);
+    loop {
+        match it.next() {
+            Some(x) => front.push(sig(x)),
+            None => break,
+        }
+        match it.next_back() {
+            Some(x) => back.push(sig(x)),
+            None => break,
+        }
+    }
+    ok &= it.next().is_none() && it.next_back().is_none();
+    back.reverse();
+    front.extend(back);
+    ok &= front == base;
     ok
 }
